@@ -40,7 +40,9 @@ def caps_bytes(c):
 
 
 def react(r, what=""):
-    return {"OK": b'OK "fine"\r\n', "NO": b'NO "refused"\r\n', "BYE": b'BYE "closing"\r\n', "silence": None}[r]
+    # "garbage": bytes that are no ManageSieve reply at all (then nothing more): like silence for a correct client
+    return {"OK": b'OK "fine"\r\n', "NO": b'NO "refused"\r\n', "BYE": b'BYE "closing"\r\n', "silence": None,
+            "garbage": b'\x16\x03\x01 <html>502</html>\r\n* junk "OK"\r\n'}[r]
 
 
 def tlc_histories(cfg, simulate=None, depth=None, seed=None):
@@ -146,7 +148,7 @@ def replay(task):
             if g_r == "OK":
                 plain.push(caps_bytes(pair["pre"]))
                 events.append(["caps", cid, pair["pre"]["sasl"]])
-            elif g_r in ("NO", "BYE"):
+            elif g_r in ("NO", "BYE", "garbage"):
                 plain.push(react(g_r))
             hs_ok = srv.get("handshake", "OK") == "OK"
             pc = srv.get("postcaps", "OK")
@@ -158,7 +160,7 @@ def replay(task):
                     if pc == "OK":
                         tls.push(caps_bytes(pair["post"]))
                         events.append(["caps", cid, pair["post"]["sasl"]])
-                    elif pc in ("NO", "BYE"):
+                    elif pc in ("NO", "BYE", "garbage"):
                         tls.push(react(pc))
                     return r
             ctx = Ctx(tls, fail=not hs_ok)
@@ -321,7 +323,7 @@ def static_api_check():
 
 CONFIGS = {
     ("C10", "quick"): [
-        {"maxcalls": 2, "prefs": [""], "tls": [True, False], "reactions": ["OK", "NO", "BYE", "silence"],
+        {"maxcalls": 2, "prefs": [""], "tls": [True, False], "reactions": ["OK", "NO", "BYE", "silence", "garbage"],
          "ops": ["LISTSCRIPTS"],
          "pairs": [{"pre": {"sasl": ["LOGIN"], "tls": True}, "post": {"sasl": ["PLAIN"], "tls": False}},
                    {"pre": {"sasl": ["PLAIN"], "tls": False}, "post": {"sasl": ["PLAIN"], "tls": False}}]},
@@ -330,7 +332,7 @@ CONFIGS = {
          "pairs": [{"pre": {"sasl": ["PLAIN", "LOGIN"], "tls": True}, "post": {"sasl": ["LOGIN"], "tls": False}}]},
     ],
     ("C10", "thorough"): [
-        {"maxcalls": 3, "prefs": ["", "LOGIN"], "tls": [True, False], "reactions": ["OK", "NO", "BYE", "silence"],
+        {"maxcalls": 3, "prefs": ["", "LOGIN"], "tls": [True, False], "reactions": ["OK", "NO", "BYE", "silence", "garbage"],
          "ops": ["LISTSCRIPTS", "PUTSCRIPT"],
          "pairs": [{"pre": {"sasl": ["LOGIN"], "tls": True}, "post": {"sasl": ["PLAIN"], "tls": False}},
                    {"pre": {"sasl": ["PLAIN"], "tls": False}, "post": {"sasl": ["PLAIN"], "tls": False}},
